@@ -126,6 +126,49 @@ theorem C06_find_no_panic (l : SegLib) (h : WF l) (hc : structsClosed l) (names 
     | some f => simp
     | none => exact walk_no_panic l.structs (n :: rest) l.globals [] hc.1 hc.2 why
 
+theorem walk_never_panics (structs : List (String × SegMap)) (names : Path) :
+    ∀ (m : SegMap) (p : Path) (why : String), Doc.walk structs m p names ≠ .panic why := by
+  induction names with
+  | nil => intro m p why h; cases h
+  | cons name more ih =>
+    intro m p why
+    cases more with
+    | nil =>
+      simp only [Doc.walk]
+      cases Doc.choose m p name <;> simp
+    | cons r rest =>
+      simp only [Doc.walk]
+      cases hc : Doc.choose m p name with
+      | none => simp
+      | some s' =>
+        simp only
+        cases hk : (Doc.fieldAtPath m (p ++ [s'])).kind with
+        | any => simp
+        | function f => exact ih m _ why
+        | property w => exact ih m _ why
+        | removed => exact ih m _ why
+        | struct sname =>
+          simp only
+          cases hsg : getKV structs sname with
+          | none => simp
+          | some strukt => exact ih strukt [] why
+
+/-- **no panic, unconditionally** (after the `fix:` that makes an undefined struct lead nowhere):
+lookup of a non-empty path never panics, for every library — in particular one that names a missing
+struct, which loads without error. -/
+theorem C06_find_total (l : SegLib) (h : WF l) (names : Path) (hn : names ≠ []) :
+    ∀ why, findGlobal l names ≠ .panic why := by
+  intro why
+  rw [C06_find l h]
+  unfold Doc.lookup
+  cases names with
+  | nil => exact absurd rfl hn
+  | cons n rest =>
+    simp only
+    cases l.globals.get (n :: rest) with
+    | some f => simp
+    | none => exact walk_never_panics l.structs (n :: rest) l.globals [] why
+
 /-! ### reads and writes -/
 
 /-- **C06 (positional).** Every target of a multiple assignment is judged independently of its
